@@ -62,6 +62,31 @@ def build_pipe(desc, top=True):
     return t
 
 
+def flavour(rng, seq):
+    """The same passes handed over as any of the iterables the signature (Iterable[Transformer]) admits."""
+    k = rng.choice(['list', 'list', 'tuple', 'generator', 'iter', 'map'])
+    seq = list(seq)
+    if k == 'list':
+        return seq
+    if k == 'tuple':
+        return tuple(seq)
+    if k == 'generator':
+        return (x for x in seq)
+    if k == 'iter':
+        return iter(seq)
+    return map(lambda x: x, seq)
+
+
+def implied(names):
+    """Leaf names incl. the post-passes a pass implies (as describe_transformer reports them for a real object)."""
+    out = []
+    for n in names:
+        out.append(n)
+        if n in ('MUO', 'MDG', 'MEG'):
+            out.append('RRG')
+    return out
+
+
 def flat(desc):
     if isinstance(desc, str):
         return [desc]
@@ -253,6 +278,11 @@ def install(ctx, mode):
             # a transformer that is not one of the library's simplification passes (e.g. a test double)
             ctx.mon('transform', 'skipped_foreign_transformer')
             return
+        # what the caller asked for when it built the object (workload-made objects): the object's own flags may have been
+        # changed behind the caller's back, which is exactly what must be noticed
+        intended = CUR.pop('intended', None)
+        if intended is not None:
+            names = intended
         ctx.mon('transform')
         if mode == 'C03':
             check_c03('Transformer.transform', st, c, result, 'RRG_in' in names, ctx, CUR['case'])
@@ -275,13 +305,24 @@ def install(ctx, mode):
         c = args[0] if args else kwargs['circuit']
         ts = args[1] if len(args) > 1 else kwargs['transformers']
         from cirbo.core.circuit.transformer import TransformerComposition
-        lst = [ts] if isinstance(ts, TransformerComposition) else list(ts)
+        intended = CUR.pop('intended', None)
+        if isinstance(ts, TransformerComposition):
+            lst = [ts]
+        elif isinstance(ts, (list, tuple)):
+            lst = list(ts)
+        else:
+            lst = None   # a one-shot iterable: the monitor must not (and, after the call, cannot) iterate it
+        if lst is None and intended is None:
+            ctx.mon('apply_transformers', 'skipped_one_shot_iterable')
+            return
         names = []
-        for t in lst:
+        for t in (lst or []):
             names += describe_transformer(t)
         if st is None or any(nm not in LEAVES for nm in names):
             ctx.mon('apply_transformers', 'skipped_foreign_transformer')
             return
+        if intended is not None:
+            names = intended
         ctx.mon('apply_transformers')
         if mode == 'C03':
             check_c03('Transformer.apply_transformers', st, c, result, 'RRG_in' in names, ctx, CUR['case'],
